@@ -5,3 +5,19 @@ import "time"
 // VerifSetDialTimeout replaces the real-time budget of waitConnReady / grpc dial (5 s by default) for
 // the C18 harness: an execution there must not depend on a wall-clock timer.
 func VerifSetDialTimeout(c *RPCClient, d time.Duration) { c.option.dialTimeout = d }
+
+// VerifInflight reports, for the pool of addr, the number of entries in the in-flight tables
+// (batchCommandsClient.batched) and the sum of the `sent` counters of its batch clients.
+func VerifInflight(c *RPCClient, addr string) (entries int, sent int64) {
+	c.RLock()
+	pool := c.connPools[addr]
+	c.RUnlock()
+	if pool == nil || pool.batchConn == nil {
+		return 0, 0
+	}
+	for _, bc := range pool.batchCommandsClients {
+		bc.batched.Range(func(_, _ interface{}) bool { entries++; return true })
+		sent += bc.sent.Load()
+	}
+	return
+}
